@@ -145,6 +145,8 @@ func checkC01(w *World, c *Check, tier string) {
 	structs := w.TaggedStructs()
 	c.stat("tagged_structs", len(structs))
 	checkNothingInvented(w, c, t, "C01.R-clobber")
+	checkLoaderFilter(w, c, "C01.filter")
+	c.floor("C01.filter", 14)
 	checkAccessors(w, c, "C01.accessor", []string{"GetType", "GetID", "GetLink"})
 	c.floor("C01.accessor", 42)
 	c.floor("C01.W-cover", 300)
@@ -823,6 +825,8 @@ func checkC05(w *World, c *Check, tier string) {
 	c.floor("C05.R-map", 20)
 	c.floor("C05.shape", 2)
 	c.floor("C05.elements", 2)
+	c.floor("C05.filter", 14)
+	checkLoaderFilter(w, c, "C05.filter")
 	c.floor("C05.type", 3)
 	for _, s := range w.TaggedStructs() {
 		jt := t.jsonTableFor(s)
@@ -1286,6 +1290,65 @@ func checkNothingInvented(w *World, c *Check, t *tables, rule string) {
 					c.bad(rule, key, w.InstrPos(st), fmt.Sprintf("%s fills %s from %s of the value being built, not from the document: the decoded value holds a property the document does not say (and an independent reader does not see)", funcName(f), fp.String(), other))
 				} else {
 					c.ok(rule, key, w.InstrPos(st), "filled from the document")
+				}
+			}
+		}
+	}
+	// … and does not hand a property to a package function that rewrites it from anything but the document: a clean-up
+	// pass over what was just read (de-duplicating the recipient lists against each other, sorting, trimming) makes
+	// the decoded value differ from what the document says, for the documents the clean-up touches
+	eff := computeEffects(w)
+	for _, f := range w.Funcs {
+		root := f
+		for root.Parent() != nil {
+			root = root.Parent()
+		}
+		if !strings.HasPrefix(root.Name(), "JSONLoad") && !strings.HasPrefix(root.Name(), "JSONUnmarshalTo") {
+			continue
+		}
+		nc := 0
+		for _, call := range callsIn(f) {
+			cal := call.Common().StaticCallee()
+			if cal == nil || !w.InPkg(cal) || eff.sum[cal] == nil {
+				continue
+			}
+			args := call.Common().Args
+			fed := false
+			for _, a := range args {
+				if isDocType(a.Type()) {
+					fed = true
+				}
+				if _, isConst := a.(*ssa.Const); !isConst {
+					if _, isFA := a.(*ssa.FieldAddr); !isFA {
+						if d, _ := fromDoc(a, 0, map[ssa.Value]bool{}); d {
+							fed = true
+						}
+					}
+				}
+			}
+			if fed {
+				continue
+			}
+			for ai, a := range args {
+				// a variadic list of field addresses counts as each of them
+				cands := []ssa.Value{a}
+				if elems, ok := variadicElems(a); ok {
+					cands = elems
+				}
+				for _, cand := range cands {
+					fa, ok := cand.(*ssa.FieldAddr)
+					if !ok {
+						continue
+					}
+					fp, ok := t.pr.structPath(fa, 0)
+					if !ok || len(fp.Names) == 0 || fp.RootType == nil || w.StructInfoOf(fp.RootType.Obj().Name()) == nil {
+						continue
+					}
+					if eff.sum[cal].writes&paramBit(ai) == 0 {
+						continue
+					}
+					nc++
+					c.bad(rule, fmt.Sprintf("%s:rewrites:%s", funcName(f), fp.String()), w.InstrPos(call), fmt.Sprintf("%s hands %s, which it has read from the document, to %s, which rewrites it from something other than the document: the decoded value no longer holds what the document says (members are removed, reordered or merged)", funcName(f), fp.String(), funcName(cal)))
 				}
 			}
 		}
